@@ -7,6 +7,8 @@ import sys, json, importlib, traceback, os, warnings
 
 def main():
     warnings.filterwarnings("ignore")
+    from harness import cov
+    cov.start()
     mod = importlib.import_module("harness." + sys.argv[1])
     fn = getattr(mod, sys.argv[2])
     from harness.common import _json_default
